@@ -233,6 +233,11 @@ def gen_row_units(rng, row, budget, state):
     elif x < 0.5 and avail > 2:
       units.append(["ctl", "BS"])
       avail += 1
+    if state.get("tomid") and pi + 1 < pieces and avail > 6 and rng.random() < state["tomid"]:
+      # a tab offset after text: the cursor moves right, the cells in between stay blank
+      n_ = rng.choice([1, 2, 3])
+      units.append(["ctl", "TO%d" % n_])
+      avail -= n_
     if pi + 1 < pieces and avail > 4 and rng.random() < 0.7:
       if rng.random() < 0.4:
         units.append(["mid", -1, rng.random() < 0.2])
@@ -259,7 +264,7 @@ def gen_script(rng, knobs):
   ncap = knobs["captions"]
   style = rng.choice(knobs["styles"])
   first = True
-  state = {"color": 0, "mid2": knobs.get("mid2", 0.3)}
+  state = {"color": 0, "mid2": knobs.get("mid2", 0.3), "tomid": knobs.get("tomid", 0.2)}
   k = 0
   while k < ncap:
     if not first and rng.random() < knobs["switch"]:
